@@ -924,6 +924,7 @@ class C18Checker(Checker):
         self.intermediate_seen = False
         self.stalled = False
         self.pending_round = None
+        self.applied_round = None
         self.born_asleep: set[str] = set()
 
     def on_round(self, run, rnd):
@@ -934,21 +935,30 @@ class C18Checker(Checker):
         if not self.hib_on:
             self.pending_round = rnd
             return
+        # the model is updated at the next boundary, when it is known from which demes a child was really created
+        self.pending_round = rnd
+
+    def _apply_round(self, run, rnd):
+        cen = rnd["before"]["census"]
+        nch = rnd["before"].get("n_children", {})
+        now = {d.id: len(d.children) for _, d in run.tree.all_demes}
         for did, c in cen.items():
             if c[CEN_ACTIVE] and c[CEN_LEVEL] < self.H - 1:
-                asleep = not rnd["seeds"].get(did)  # "took a sprout from it": a non-empty list of seeds
+                # "the round took a sprout from it": a child was created from it (seeds that were returned by the
+                # mechanism but never turned into a deme do not count)
+                asleep = not (now.get(did, 0) > nch.get(did, 0))
                 was = self.model.get(did, False)
                 if asleep and not was:
                     self.fell_asleep += 1
                 if was and not asleep:
                     self.woke_up += 1
                 self.model[did] = asleep
-        self.pending_round = rnd
 
     def on_boundary(self, run, k):
         tree, tr = run.tree, run.trace
         cen = census(tree)
         step_made = self.prev_cen is not None
+        round_of_this_step = self.pending_round if (self.hib_on and self.pending_round is not None and self.pending_round is not self.applied_round) else None
         if step_made:
             # demes the model says were asleep at the start of the step must not have moved
             for did, p in self.prev_cen.items():
@@ -976,6 +986,9 @@ class C18Checker(Checker):
                     "stall/no-evaluation-in-metaepoch" + ("/all-active-hibernating" if sleepers and len(sleepers) == sum(1 for p in self.prev_cen.values() if p[CEN_ACTIVE]) else ""),
                     f"metaepoch {tree.metaepoch_count} passed without a single objective evaluation although the GSC was false and demes {sorted(d for d, p in self.prev_cen.items() if p[CEN_ACTIVE])} were active (hibernating: {sleepers})",
                 )
+        if round_of_this_step is not None:
+            self._apply_round(run, round_of_this_step)
+            self.applied_round = round_of_this_step
         # flags against the model
         for did, c in cen.items():
             if did not in self.model:
